@@ -9,8 +9,10 @@ cd "$wt" || exit 2
 export CARGO_TARGET_DIR="$wt/target" CARGO_NET_OFFLINE=true
 git checkout -q -- . ; rm -f tests/seed_demo.rs
 cp "$sd/demo.rs" tests/seed_demo.rs
+cargo build --offline --workspace >/dev/null 2>&1
 if cargo test --offline --test seed_demo >/tmp/vs-demo0.log 2>&1; then d0=pass; else d0=FAIL; fi
 if ! git apply "$sd/patch.diff"; then echo "patch does not apply"; rm -f tests/seed_demo.rs; exit 1; fi
+cargo build --offline --workspace >/dev/null 2>&1
 if timeout 600 cargo test --offline --test seed_demo >/tmp/vs-demo1.log 2>&1; then d1=PASS; else d1=fail; fi
 rm -f tests/seed_demo.rs
 timeout 900 cargo test --workspace --no-fail-fast --offline >/tmp/vs-base.log 2>&1
